@@ -100,7 +100,9 @@ OPS = ['meta_set', 'meta_append', 'meta_extend', 'meta_update', 'col_set', 'col_
        # the same key again: overwrite in place / relocate an existing key (the store paths differ inside the maps)
        'meta_set_same', 'col_set_same', 'meta_relocate_same', 'col_append_same',
        # a row may carry a key that is not (yet) a column: the value is in the grid all the same
-       'append_extra', 'setitem_extra']
+       'append_extra', 'setitem_extra',
+       # the rows arrive inside another Grid object (dest.extend(src) / dest += src): they are rows like any others
+       'extend_grid', 'iadd_grid']
 RANDOM_ONLY_OPS = ['insert_extra', 'extend_extra']
 # declares every undeclared row key as a column (carries no value of its own)
 NOVALUE_OPS = ['declare_extras']
@@ -163,6 +165,15 @@ def apply_op(hszinc, g, op, k, step):
             if len(g) == 0:
                 g.append({'a': 'seed'})
             g[0] = {'a': 'plain', 'x%d' % step: v}
+        elif op in ('extend_grid', 'iadd_grid'):
+            src = hszinc.Grid(version='3.0', columns=[('a', [])])
+            src.append({'a': 'plain'})
+            src.append({'a': v})
+            del src[0]                       # single row, so that a refusal leaves the destination unchanged
+            if op == 'extend_grid':
+                g.extend(src)
+            else:
+                g += src
         elif op == 'declare_extras':
             for row in g:
                 for key in row:
